@@ -166,4 +166,37 @@ impl DiscriminantType {
             Err(syn::Error::new(ast.span(), "not an enum"))
         }
     }
+
+    /// Builds a `match` mapping each variant to its declared discriminant, as a value of this type.
+    pub(crate) fn discriminant_match(
+        &self,
+        ast: &DeriveInput,
+        value: proc_macro2::TokenStream,
+    ) -> proc_macro2::TokenStream {
+        let mut arms = TokenStream::new();
+
+        if let Data::Enum(data) = &ast.data {
+            let mut base: Option<&Expr> = None;
+            let mut offset = 0u128;
+
+            for variant in data.variants.iter() {
+                if let Some((_, exp)) = variant.discriminant.as_ref() {
+                    base = Some(exp);
+                    offset = 0;
+                }
+
+                let ident = &variant.ident;
+                let offset_lit = proc_macro2::Literal::u128_unsuffixed(offset);
+
+                arms.extend(match base {
+                    Some(exp) => quote::quote!( Self::#ident { .. } => ((#exp) as #self) + #offset_lit, ),
+                    None => quote::quote!( Self::#ident { .. } => #offset_lit as #self, ),
+                });
+
+                offset += 1;
+            }
+        }
+
+        quote::quote!( match #value { #arms } )
+    }
 }
